@@ -247,8 +247,10 @@ SelectionOK ==
        calls[i].op = "find" => SelOK(F.gsub, calls[i].lg, FindRes(calls[i]), ToSet(calls[i].on))
 
 \* every stage conserves the text: the characters of the items, in order, are the string
+\* every character of the text is carried by exactly one glyph (a bag: a ligature formed across a skipped mark
+\* moves the mark behind the new glyph, so the order of the characters may change)
 Conserved ==
-  stage # "idle" => TextOf(buf) = txt
+  stage # "idle" => SortSeq(TextOf(buf), LAMBDA a, b : a < b) = SortSeq(txt, LAMBDA a, b : a < b)
 
 \* between the width stage and GPOS: marks have no advance, every other glyph the font's
 WidthsOK ==
@@ -269,7 +271,7 @@ Composition ==
         m == StageCmap(F, c.s)
     IN  /\ c.out = Layout(F, c.s, c.swg, c.swp, c.lg, c.lp, rd)
         /\ (Inert("GSUB", G, c.gl, m) /\ Inert("GPOS", P, c.pl, StageWidths(F, m))) => c.out = Identity(F, c.s)
-        /\ TextOf(c.out) = c.s
+        /\ SortSeq(TextOf(c.out), LAMBDA a, b : a < b) = SortSeq(c.s, LAMBDA a, b : a < b)     \* as a bag (see Conserved)
 
 \* equal calls, equal answers
 Stable ==
